@@ -167,6 +167,29 @@ func runC14(c *caseWriter) (string, bool, map[string]int) {
 	}
 	product([]string{"%", "4", "f", "G", "g", "/", "&", " "}, pdepth, func(s string) { data(s) })
 
+	// (2b) long prefixes: an incomplete character reference or percent escape at the end of the prefix,
+	// padded with leading zeros / preceded by long runs (a validator that looks at a window of the
+	// prefix only, or that gives up on long input, shows here)
+	longTails := []string{"&#x", "&#X", "&#", "&", "&am", "&quest", "&#x2", "&#3", "%", "%4", "&#x0", "&#0"}
+	pads := []int{1, 7, 8, 15, 16, 27, 28, 29, 30, 31, 32, 33, 34, 48, 63, 64, 65, 100, 255, 256, 257, 1000, 4096}
+	for ti, t := range longTails {
+		for pi, k := range pads {
+			if !thorough && (ti+pi)%3 != 0 && k != 30 && k != 31 && k != 32 && k != 33 {
+				continue
+			}
+			zeros := strings.Repeat("0", k)
+			as := strings.Repeat("a", k)
+			cands := []string{"/p?q=" + as + t, as + "/" + t, "/p/" + as + "?x=" + as + t}
+			if strings.HasPrefix(t, "&#") {
+				cands = append(cands, "/p?q="+t+zeros, "/p/"+t+zeros, "/p?q="+as+t+zeros)
+			}
+			for ci, p := range cands {
+				run(classes[(ti+pi+ci)%len(classes)], p, []string{"23zz", "26zz", "35;x", "41", "x3f;y"}[(ti+pi+ci)%5])
+				run(urlCls, p, "23zz")
+			}
+		}
+	}
+
 	// (3) the prefix grammar: scheme x host x path x query x fragment, then a tail
 	schemes := []string{"http:", "https:", "mailto:", "javascript:", "JavaScript:", "data:", "java", "j", ""}
 	hosts := []string{"", "//a.b", "//a.b/", "//a.b:80/d/"}
@@ -275,7 +298,7 @@ func runC14(c *caseWriter) (string, bool, map[string]int) {
 	}
 	return "templates <E A=Q P{{.}} Q> through the real engine for every URL-typed (element, attribute, rel) class (a href, script src, img src, form action, link href rel=stylesheet / alternate, iframe src; more in the thorough tier), both quoting styles: " +
 		"recorded witnesses; directed-search seeds as prefix / inside a prefix / as data; exhaustive small scope of prefixes of <= 3 (thorough 4) tokens over {/ ? # : a . % 4 & ; SP &quest;}; " +
-		"the grammar scheme x host x path x query x fragment x tail (tails: named references with and without ';', decimal, hex, partial references, complete and partial percent escapes, white space and controls raw and as references); " +
+		"long prefixes ending in an incomplete character reference / percent escape padded with 1..4096 zeros or letters; the grammar scheme x host x path x query x fragment x tail (tails: named references with and without ';', decimal, hex, partial references, complete and partial percent escapes, white space and controls raw and as references); " +
 		"every tail after representative bases in every class; every hostile string and every single byte as data after path / query / fragment bases and as the last byte of the prefix; safe-type, Stringer, pointer and error values; " +
 		"structured random prefixes and data; malformed UTF-8.  The decoded attribute value of the real output (tokenizer specification + html.UnescapeString model) is split by RFC 3986 and judged by the specification predicates; " +
 		"url_proc judges NormalizeURL / QueryEscapeURL on every data string and on every string of <= 4 symbols over {% 4 f G g / & SP}; url_prefix, sanitizer_for, m_normalize, m_query_escape tie the model.  non-trivial = the template was accepted and executed", false, nil
